@@ -137,6 +137,13 @@ def main(pid, tier, seed):
             if t['kind'] == 'limit':
                 w['want'] = min(t['N'], len(t['full']))
             verdict.violation(w, 'clause %s; %s' % (v[2], core.short({k: m[k] for k in m if k != 'ruleset'}, 200)))
+    def corrupt(t):
+        if t['kind'] == 'limit' and len(t['lines']) >= 2 and not t['hasout']:
+            t['lines'] = t['lines'] + [t['lines'][0]]       # one word more than asked
+            return t
+        return None
+    accepted = [t for t in etraces if v2[t['tid']][0] == 'ACCEPT']
+    selftest = core.binding_selftest('TrExpand.tla', accepted, corrupt, env={'UP_FILE': upfile})
     verdict.matcher('C17-F6-size-overshoots-inside-group',
                     lambda w: w.get('clause') == 'C09_length' and w.get('got', 0) > w.get('want', 0))
     rc, n_viol, n_known = verdict.finish()
@@ -151,7 +158,7 @@ def main(pid, tier, seed):
            'rule': 'queue trace = one exhaustive run of the real PcfgQueue on a Prince grammar; pt trace = one Prince pre-terminal expanded; '
                    'limit trace = create_prince_wordlist(size=N) in-process or prince_ling.py subprocess (stdout / -o file)',
            'rulesets': len(rdirs), 'cli_runs': len(jobs),
-           'trace_validation': {'TrPTQ': st1, 'TrExpand': st2}, 'exhaustive': False,
+           'trace_validation': {'TrPTQ': st1, 'TrExpand': st2}, 'exhaustive': False, 'binding_selftest': selftest,
            'known_findings_reproduced': n_known, 'violation_histogram': verdict.histogram()}
     core.write_evidence(pid, tier, seed, 'model_checking', cov, time.time() - t0, violations=n_viol,
                         assumptions=['TLC', 'rank abstraction of floats', 'str.upper() as meaning of U'])
